@@ -420,12 +420,16 @@ func (sdb *DbSqlite) initJwtKey() error {
 
 // normalizePoints applies the conventions of the store to incoming points
 // before they are compared with each other and with the stored points: an
-// empty key means key "0".
+// empty key means key "0", and negative zero is stored as zero (SQLite does
+// not keep the sign of a zero, so the hash must not be computed with it).
 func normalizePoints(points data.Points) data.Points {
 	ret := make(data.Points, len(points))
 	for i, p := range points {
 		if p.Key == "" {
 			p.Key = "0"
+		}
+		if p.Value == 0 {
+			p.Value = 0
 		}
 		ret[i] = p
 	}
